@@ -192,4 +192,5 @@ def _assign(v, tag):
         for i in range(v.n):
             a[i] = Sym.var('sol%d_%d_%d' % (tag, v.id, i))
         v.value = a
+        v.solver_value = list(a)          # what the solver reported, kept apart from .value (which the code under test may overwrite in place)
     _ALLVARS[v.id] = v
